@@ -140,6 +140,14 @@ def run(facts, tr, rep):
                            "all-attempts-failed is reported %s: attempts that are still running could yet succeed"
                            % ("without the channel having closed (recv() == None)" if not closed else "while the function still holds its own sender"))
     rep.floor("C12.all-failed-sites", nfail, 1)
+    # ... and recv() == None means "every sender is gone" only while the receiver is open: a coordinator that closes its own
+    # receiver gets None with attempts still running (their later sends fail), and reports all-attempts-failed over them
+    closers = [c for b_ in [hb] + [x for x in descendants(facts, hb) if x is not hb] for c in graph(b_).calls()
+               if c.name == "close" and "mpsc" in (c.def_ or c.path or "")]
+    rep.ob("C12.EVIDENCE", skey(hb, "receiver-stays-open"), not closers, closers[0].where() if closers else "%s:%d" % (hb.span["file"], hb.span["line"]),
+           "the coordinator never closes the result channel's receiver: recv() == None is evidence that every attempt has reported" if not closers else
+           "the coordinator closes the result channel's receiver (%s): recv() then answers None while attempts are still running, and their "
+           "success is discarded in favour of all-attempts-failed" % closers[0].path[:60])
     # ------------------------------------------------------------ ATTEMPT bodies
     # spawn sites: in the hedging future itself, or in a private synchronous helper it calls (then the site is the helper call)
     spawns = []
